@@ -17,6 +17,9 @@ type failureTest struct {
 	okSucc     *ssa.BasicBlock
 	tested     ssa.Value     // the value compared with nil
 	getter     *ssa.Function // non-nil when the value is obtained through a locked getter
+	gate       *ssa.Function // non-nil when the test is on the error result of a package-local helper that carries the real test
+	gateCall   *ssa.Call
+	inner      *failureTest // the helper's own test
 }
 
 // failureGetter: g is a package-local function all of whose returns yield a load of field ff.
@@ -37,6 +40,39 @@ func failureGetter(g *ssa.Function, ff *types.Var) bool {
 }
 
 func findFailureTest(f *ssa.Function, ff *types.Var) *failureTest {
+	return findFailureTestD(f, ff, 0)
+}
+
+// gateResult: x is the error result of a call to a package-local helper which itself tests the failure condition and
+// returns it first thing (e.g. a shared "checks + table lookup" helper).
+func gateResult(x ssa.Value, f *ssa.Function, ff *types.Var, depth int) (*ssa.Call, *failureTest) {
+	if depth > 2 {
+		return nil, nil
+	}
+	var c *ssa.Call
+	idx := 0
+	switch v := strip(x).(type) {
+	case *ssa.Call:
+		c = v
+	case *ssa.Extract:
+		c, _ = v.Tuple.(*ssa.Call)
+		idx = v.Index
+	}
+	if c == nil {
+		return nil, nil
+	}
+	g := c.Call.StaticCallee()
+	if g == nil || g.Blocks == nil || g.Pkg != f.Pkg || g == f || errResultIndex(g) != idx {
+		return nil, nil
+	}
+	inner := findFailureTestD(g, ff, depth+1)
+	if inner == nil {
+		return nil, nil
+	}
+	return c, inner
+}
+
+func findFailureTestD(f *ssa.Function, ff *types.Var, depth int) *failureTest {
 	var res *failureTest
 	instrs(f, func(in ssa.Instruction) {
 		ifi, ok := in.(*ssa.If)
@@ -47,19 +83,24 @@ func findFailureTest(f *ssa.Function, ff *types.Var) *failureTest {
 		if !ok {
 			return
 		}
-		var getter *ssa.Function
+		var getter, gate *ssa.Function
+		var gateCall *ssa.Call
+		var inner *failureTest
 		if !isLoadOfField(x, ff) {
 			c, isCall := strip(x).(*ssa.Call)
-			if !isCall || !failureGetter(c.Call.StaticCallee(), ff) {
+			if isCall && failureGetter(c.Call.StaticCallee(), ff) {
+				getter = c.Call.StaticCallee()
+			} else if gc, it := gateResult(x, f, ff, depth); gc != nil {
+				gate, gateCall, inner = gc.Call.StaticCallee(), gc, it
+			} else {
 				return
 			}
-			getter = c.Call.StaticCallee()
 		}
 		b := ifi.Block()
 		if nonNilOnTrue {
-			res = &failureTest{ifi, b.Succs[0], b.Succs[1], x, getter}
+			res = &failureTest{ifi, b.Succs[0], b.Succs[1], x, getter, gate, gateCall, inner}
 		} else {
-			res = &failureTest{ifi, b.Succs[1], b.Succs[0], x, getter}
+			res = &failureTest{ifi, b.Succs[1], b.Succs[0], x, getter, gate, gateCall, inner}
 		}
 	})
 	return res
@@ -77,24 +118,54 @@ func (e *Engine) c15Direct(which string, role string, name string, f *ssa.Functi
 		e.c15R2(construct, f, ff, ft)
 		return
 	}
-	// the test is evaluated with the mutex held
-	st := lr.at[ft.ifi]
-	if ft.getter != nil {
+	// the failure condition is read with the mutex held (where the read value is compared is immaterial)
+	innermost := ft
+	for innermost.gate != nil {
+		innermost = innermost.inner
+	}
+	st := lr.at[innermost.ifi]
+	if ld, ok := strip(innermost.tested).(ssa.Instruction); ok && isLoadOfField(innermost.tested, ff) {
+		st = lr.at[ld]
+	}
+	if innermost.getter != nil {
 		st = lsHeld
-		instrs(ft.getter, func(in ssa.Instruction) {
+		instrs(innermost.getter, func(in ssa.Instruction) {
 			if v, ok := in.(ssa.Value); ok && isLoadOfField(v, ff) && lr.at[in] != lsHeld {
 				st = lr.at[in]
 			}
 		})
 	}
 	if st != lsHeld {
-		e.fail("R1", construct+":test-locked", e.ipos(ft.ifi), "failure test executed with Client.mu %s", st)
+		e.fail("R1", construct+":test-locked", e.ipos(innermost.ifi), "the failure condition is read with Client.mu %s", st)
 	} else {
-		e.pass("R1", construct+":test-locked", e.ipos(ft.ifi), "failure test executed with the mutex held")
+		e.pass("R1", construct+":test-locked", e.ipos(innermost.ifi), "the failure condition is read with the mutex held")
 	}
-	// R1: the test dominates every effect, which lies on the nil edge
+	// R1: the test dominates every effect, which lies on the nil edge (in the method, and in the helper that carries the test)
 	bad := ""
 	neffects := 0
+	for cur, curF := ft, f; cur != nil; cur, curF = cur.inner, cur.gate {
+		ft, f := cur, curF
+		e.c15Effects(role, f, ft, lr, gr, &bad, &neffects)
+		if cur.gate == nil {
+			break
+		}
+	}
+	if bad != "" {
+		e.fail("R1", construct+":test-dominates-effects", e.ipos(ft.ifi), "%s: state is read or written although a failure condition is active", bad)
+	} else {
+		e.pass("R1", construct+":test-dominates-effects", e.ipos(ft.ifi), "all %d state-touching instructions are dominated by the nil edge of the failure test", neffects)
+	}
+}
+
+func (e *Engine) c15Effects(role string, f *ssa.Function, ft *failureTest, lr *lockResult, gr map[*ssa.Function]bool, badOut *string, n *int) {
+	bad := ""
+	neffects := 0
+	defer func() {
+		if bad != "" {
+			*badOut = bad
+		}
+		*n += neffects
+	}()
 	instrs(f, func(in ssa.Instruction) {
 		what, isG := e.guarded(role, in)
 		if isG && what == "field:forceFailureErr" {
@@ -107,8 +178,8 @@ func (e *Engine) c15Direct(which string, role string, name string, f *ssa.Functi
 			}
 			hit := false
 			for _, g := range e.callees(c) {
-				if g == ft.getter {
-					continue // the locked read of the failure error itself
+				if g == ft.getter || (ft.gate != nil && in == ssa.Instruction(ft.gateCall)) {
+					continue // the locked read of the failure error itself / the helper that carries the test (checked in turn)
 				}
 				if gr[g] {
 					hit = true
@@ -126,11 +197,6 @@ func (e *Engine) c15Direct(which string, role string, name string, f *ssa.Functi
 			bad = fmt.Sprintf("%s at %s is not confined to the no-failure edge of the test", what, e.ipos(in))
 		}
 	})
-	if bad != "" {
-		e.fail("R1", construct+":test-dominates-effects", e.ipos(ft.ifi), "%s: state is read or written although a failure condition is active", bad)
-	} else {
-		e.pass("R1", construct+":test-dominates-effects", e.ipos(ft.ifi), "all %d state-touching instructions are dominated by the nil edge of the failure test", neffects)
-	}
 }
 
 func (e *Engine) c15R2(construct string, f *ssa.Function, ff *types.Var, ft *failureTest) {
@@ -154,6 +220,9 @@ func (e *Engine) c15R2(construct string, f *ssa.Function, ff *types.Var, ft *fai
 			if i != ei && !isNilConst(r) {
 				okOut = false
 			}
+		}
+		if okOut && ft.gate != nil {
+			e.c15R2(construct+":via-"+ft.gate.Name(), ft.gate, ff, ft.inner)
 		}
 		if okOut {
 			e.pass("R2", construct+":returns-configured-error", e.ipos(ret), "non-nil edge returns (nil, Client.forceFailureErr)")
